@@ -261,15 +261,34 @@ fn gen_graph_inner(rng: &mut SplitMix, thorough: bool) -> GraphSpec {
         // are few vertices: the builder's cost explodes with BFS depth, not with E)
         // rarely a really large table (13-15 edges on few vertices)
         if rng.chance(1, if thorough { 400 } else { 2500 }) {
-            let ne = rng.range(13, 14) as usize;
+            // one in four of them beyond 14 edges (tables of 2^15 / 2^16 entries: block-wise
+            // or threaded construction paths); a build costs a few tenths of a second
+            let ne = if rng.chance(1, 4) { rng.range(15, 16) as usize } else { rng.range(13, 14) as usize };
             let nv = rng.range(2, 5) as u8;
             let d = rng.range(1, 6) as usize;
             let heavy = rng.chance(1, 2);
+            // half of the largest ones: everything massive and heavy except one or two
+            // massless dangling edges (last, or anywhere): the only divergent subsets
+            // are then the few that contain (almost) all the other edges
+            let dangling: Vec<usize> = if ne >= 15 && rng.chance(1, 2) {
+                let mut v = vec![if rng.chance(1, 2) { ne - 1 } else { rng.below(ne as u64) as usize }];
+                if rng.chance(1, 3) {
+                    v.push(rng.below(ne as u64) as usize);
+                }
+                v
+            } else {
+                vec![]
+            };
             let es: Vec<EdgeSpec> = (0..ne)
                 .map(|i| {
+                    if let Some(k) = dangling.iter().position(|&x| x == i) {
+                        let w: f64 = *rng.pick(&[1.0f64, 2.0, 0.5]);
+                        return EdgeSpec { v: (rng.below(nv as u64) as u8, 40 + k as u8), massive: false, w: w.to_bits() };
+                    }
                     let (a, b) = if (i as u8) + 1 < nv { (i as u8, i as u8 + 1) } else { (rng.below(nv as u64) as u8, rng.below(nv as u64) as u8) };
-                    let w = if heavy { *rng.pick(&[20.0, 0.5, 2.0, 7.5, 1.0]) } else { d as f64 / 2.0 + *rng.pick(&[0.3, -0.2, 0.05, 1.0]) };
-                    EdgeSpec { v: (a, b), massive: rng.chance(2, 3), w: w.max(0.05).to_bits() }
+                    let w = if heavy || !dangling.is_empty() { *rng.pick(&[20.0, 0.5, 2.0, 7.5, 1.0]) } else { d as f64 / 2.0 + *rng.pick(&[0.3, -0.2, 0.05, 1.0]) };
+                    let w = if !dangling.is_empty() { w.max(d as f64) } else { w };
+                    EdgeSpec { v: (a, b), massive: !dangling.is_empty() || rng.chance(2, 3), w: w.max(0.05).to_bits() }
                 })
                 .collect();
             let ext = if rng.chance(1, 2) { vec![0, 1] } else { vec![0] };
